@@ -5,7 +5,8 @@
 From Coq Require Import String Ascii Bool Arith List.
 From LV Require Import Base.Prelude Cfg.Grammar Earley.Spec Forest.ExplicitToTree Forest.ExplicitCheck Forest.ExplicitToTree_proofs
   Forest.ExplicitBuild Forest.ExplicitBuild_proofs Forest.ExplicitBuildCheck
-  Earley.Alg Earley.Alg_proofs Forest.ExplicitAlgBuild Forest.ExplicitAlgBuild_proofs.
+  Earley.Alg Earley.Alg_proofs Forest.ExplicitAlgBuild Forest.ExplicitAlgBuild_proofs
+  Earley.Dyn Forest.ExplicitDynBuild Forest.ExplicitDynSound Forest.ExplicitDynBuild_proofs.
 Import ListNotations.
 Local Open Scope string_scope.
 Local Open Scope list_scope.
@@ -180,6 +181,59 @@ Example C04_A_example :
   r_out (fst (iearley_parse exA_G 0 [0; 0; 0])) = Accept
   /\ length (snd (iearley_parse exA_G 0 [0; 0; 0])) = 13
   /\ forest_okb exA_G nat Nat.eqb (fun _ => 1) (occurs_nat [0; 0; 0]) (snd (iearley_parse exA_G 0 [0; 0; 0])) = true.
+Proof. repeat split; vm_compute; reflexivity. Qed.
+
+(* Layer A for the dynamic lexers.  Forest/ExplicitDynBuild.v is the recogniser model Earley/Dyn.v (xearley.py; C01)
+   instrumented with the add_family calls of xearley.scan - token nodes identified by (terminal, start, end), and the
+   carry-over of items across %ignore-d text, which copies the packed children of the carried node into the node with
+   the later end position (a completed start item only with origin 0) - and of the shared predict_and_complete.
+   (1) Erasing the log gives back Dyn's run.
+   (2) Soundness over the position graph of the text (tokedge t i j: terminal t matches text[i:j]; ign i j: an ignored
+       terminal does): if every family has the local form dfam_ok - ignored text may precede a rule's first child and
+       follow any child - then every tree stored below a node consists of rule applications whose leaves are token
+       edges and whose leaf spans, joined by ignore paths, tile the node's span: it spells the input.  The decidable
+       checker dfam_okb implies the local form.
+   _partial: that every family logged by the model has that form is not proved as a theorem about the model; on every
+   run Coq evaluates the checker on the model's whole log, which at the same time must equal, as a set, the log of all
+   SymbolNode.add_family calls of the real dynamic / dynamic_complete parse (stream dyn-families), the position graph
+   being computed by re.fullmatch on slices of the text.  Completeness w.r.t. Dyn's chart over the position graph is
+   left to the derivation oracle of the ignore / acyclic streams. *)
+Theorem C04_A_dynamic_erasure G start n rmatch rtrunc complete_lex ignore :
+  fst (idyn_parse G start n rmatch rtrunc complete_lex ignore) = dyn_parse G start n rmatch rtrunc complete_lex ignore.
+Proof. exact (dyn_erasure G (pred_lookup G (pred_table G)) start n rmatch rtrunc complete_lex ignore). Qed.
+Print Assumptions C04_A_dynamic_erasure.
+
+Theorem C04_A_dynamic_sound (G : grammar) tokedge ign (F : nlabel span -> family span -> Prop) :
+  (forall lbl f, F lbl f -> dfam_ok G tokedge ign lbl f) ->
+  forall lbl ds, den span F lbl ds -> dsound G tokedge ign lbl ds.
+Proof. exact (dyn_sound_gen G tokedge ign F). Qed.
+Print Assumptions C04_A_dynamic_sound.
+
+(* in particular below a symbol node (a, i, j): one tree, a derivation of a, whose token spans and ignore paths tile i..j *)
+Theorem C04_A_dynamic_sound_checked (G : grammar) te ig (fams : list (nlabel nat * family nat)) a i j ds :
+  forallb (dfam_okb G te ig) fams = true ->
+  den span (in_forest span (map span_fam fams)) (NSym span a i j) ds ->
+  exists d, ds = [d] /\ dwfd G (tokedge_t te) d (NT a) /\ gtiles (tokedge_t te) (ign_t ig) i j (yield span d).
+Proof. intros H Hd. exact (dyn_forest_sound G te ig fams H _ _ Hd). Qed.
+Print Assumptions C04_A_dynamic_sound_checked.
+
+Definition C04_A_dynamic_families_full_statement : Prop :=
+  forall G start n rmatch rtrunc complete_lex ignore te ig,
+    (forall t i e, In e (ends_of rmatch rtrunc complete_lex t i) -> tokedge_b te t i e = true) ->
+    (forall x i e, In x ignore -> rmatch x i = Some e -> ign_b ig i e = true) ->
+    forallb (dfam_okb G te ig) (snd (idyn_parse G start n rmatch rtrunc complete_lex ignore)) = true.
+
+(* non-vacuity: start: X with %ignore " " on "x " (terminal 0 = X matches 0..1, terminal 1 = the ignored blank matches
+   1..2): accepted; the family of (start, 0, 1) is copied to (start, 0, 2) by the carry-over; all families have the
+   local form, so the tree below (start, 0, 2) spells "x " *)
+Definition exD_rm (t i : nat) : option nat :=
+  match t, i with 0, 0 => Some 1 | 1, 1 => Some 2 | _, _ => None end.
+Example C04_A_dynamic_example :
+  let r := idyn_parse [mkRule 0 [T 0]] 0 2 exD_rm (fun _ _ _ => None) false [1] in
+  d_out (fst r) = DAccept
+  /\ snd r = [(NSym nat 0 0 1, (mkRule 0 [T 0], None, Some (NTok nat 0 0 0 1)));
+              (NSym nat 0 0 2, (mkRule 0 [T 0], None, Some (NTok nat 0 0 0 1)))]
+  /\ forallb (dfam_okb [mkRule 0 [T 0]] [(0, 0, 1)] [(1, 2)]) (snd r) = true.
 Proof. repeat split; vm_compute; reflexivity. Qed.
 
 (* Non-vacuity: the forest lark builds for
